@@ -37,11 +37,38 @@ def load_findings(prop):
     return [x for x in allf if x['property'] == prop]
 
 
+class RecordTimeout(BaseException):
+    """Raised by the alarm inside a recorder; a BaseException so that no `except Exception` of the library
+    (or of a driver) swallows it."""
+
+
+RECORD_TIMEOUT = int(os.environ.get('VERIF_RECORD_TIMEOUT', '600'))
+
+
 def _record_one(args):
+    """One source -> case(s).  A library call that does not return is an observation, not a hang of the check:
+    after RECORD_TIMEOUT seconds the recorder is interrupted and a case that fails its verdict is produced."""
+    import signal
+
     modname, src = args
     mod = importlib.import_module(modname)
+
+    def on_alarm(signum, frame):
+        raise RecordTimeout()
+
+    use_alarm = hasattr(signal, 'SIGALRM')
     try:
-        case = mod.record(src)
+        if use_alarm:
+            old = signal.signal(signal.SIGALRM, on_alarm)
+            signal.alarm(RECORD_TIMEOUT)
+        try:
+            case = mod.record(src)
+        finally:
+            if use_alarm:
+                signal.alarm(0)
+                signal.signal(signal.SIGALRM, old)
+    except RecordTimeout:
+        return {'kind': 'same', 'what': f'library-call-did-not-return-within-{RECORD_TIMEOUT}s', 'a': 0, 'b': 1, 'exc': 'DidNotReturn', 'src': src}
     except Exception:
         return {'__harness_error__': traceback.format_exc(), 'src': src}
     return case
@@ -126,7 +153,7 @@ def run_check(modname, tier, seed, replay=None, jobs=16):
         jstats['drift'] += js.get('drift', [])
         failing = {cid for cid, _, _ in v}
         for c in cases:
-            if not replay:
+            if not replay and not (c.get('kind') == 'same' and c.get('exc') == 'DidNotReturn'):
                 if mod.nontrivial(c):
                     distinct.add(canonical(strip_src({k: v_ for k, v_ in c.items() if k != 'id'})))
                 if hasattr(mod, 'features'):
